@@ -87,10 +87,11 @@ type Map struct {
 }
 
 type Chan struct {
-	buf    []Value
-	cap    int
-	closed bool
-	// waiting goroutines are handled by the scheduler
+	buf         []Value
+	cap         int
+	closed      bool
+	sendq       []*sendReq // senders blocked on a full / unbuffered channel
+	recvWaiting int        // receivers currently blocked on this channel
 }
 
 type bad struct{}
